@@ -324,6 +324,43 @@ fn exec_c<C: Suite>(scen: &Scenario) -> Exec {
             }
         }
     }
+    // the participant's OWN slot (a broadcast channel echoes one's own contribution back): filled with its current round-one
+    // package or with the stale one from the other run, everything else consistent - the step fails, or the key material is
+    // consistent and derived from the participant's own secret state (never from what the echo claims)
+    for i in 0..n {
+        for own in 0..2usize {
+            if t_of_run[0] != t_of_run[1] {
+                break;
+            }
+            for echo in 0..2usize {
+                let mut r1_map: BTreeMap<Identifier<C>, round1::Package<C>> = (0..n).filter(|j| *j != i).map(|j| (ids[j], runs[own].r1_pkg[j].clone())).collect();
+                r1_map.insert(ids[i], runs[echo].r1_pkg[i].clone());
+                let r2_map: BTreeMap<Identifier<C>, round2::Package<C>> = (0..n).filter(|j| *j != i).map(|j| (ids[j], runs[own].r2_out[j][&i].clone())).collect();
+                rep.evaluations += 1;
+                let desc = format!("participant {i} (own run {own}) with its own round-1 package of run {echo} echoed into its own slot");
+                let r = catch_unwind(AssertUnwindSafe(|| dkg::part2::<C>(runs[own].r1_secret[i].clone(), &r1_map).and_then(|(s2, _)| dkg::part3::<C>(&s2, &r1_map, &r2_map))));
+                match r {
+                    Err(_) => return Exec::Violation(Violation::new("C09", "C09.step_panicked", desc), rep),
+                    Ok(Err(_)) => rep.probe("own_echo_refused"),
+                    Ok(Ok((kp, pk))) => {
+                        rep.probe("own_echo_accepted");
+                        if let Some(v) = check_key_material::<C>("C09", &desc, &kp, &pk, t_of_run[own], Some(&ids)) {
+                            return Exec::Violation(v, rep);
+                        }
+                        let mut sum = c0(own, i);
+                        for j in (0..n).filter(|j| *j != i) {
+                            sum = sum + c0(own, j);
+                        }
+                        let (expect, _) = C::dkg_post_map(sum, zero::<C>());
+                        if vkey_element::<C>(pk.verifying_key()) != expect {
+                            return Exec::Violation(Violation::new("C09", "C09.group_key_not_from_filed_commitments", format!("{desc}: the group key is not the sum of the peers' filed commitments and the participant's own state")), rep);
+                        }
+                    }
+                }
+                rep.probe("own_slot_histories");
+            }
+        }
+    }
     // every global assignment of runs to senders: all complete => same public key package, and they sign
     let mut gp = stream(scen.seed, scen.run, "c09/global");
     for g in 0..(1u32 << n) {
